@@ -237,6 +237,29 @@ def check(run):
                 txt = closure_text(fx, fn, fl)
                 run.check('operation_aborted' in txt, 'R6-ABORT', 'aborted-ec', '%s: %s' % (fn.norm, fl.entity.split('::')[-1]), fn.loc(fl.node),
                           'abort path completes the handler with something other than operation_aborted: ' + txt[:120], 'bound error is operation_aborted')
+    # a new wait of one kind supersedes the outstanding one of that kind on EVERY path, also the one that completes at once
+    run.clause('R6-SUPERSEDE udp::socket::async_wait: every consumption of the new handler is dominated by the abort of the outstanding operation of the same kind')
+    uaw = fx.fn1(UDP + '::async_wait')
+    run.touch(uaw)
+    nk = 0
+    for fl in handlers.flows_in(fx, uaw):
+        if not fl.entity.startswith('param:'):
+            continue
+        g = [(q.render(uaw, a), p_) for a, p_ in q.guards_at(uaw, fl.site)]
+        kind = 'send' if any(t.endswith('::wait_write)') and p_ for t, p_ in g) else 'recv' if any(t.endswith('::wait_read)') and p_ for t, p_ in g) else None
+        if kind is None:
+            run.unrecognised('R6-SUPERSEDE', 'udp-wait-kind', UDP + '::async_wait: handler -> ' + fl.dest, uaw.loc(fl.node), 'cannot tell which kind of wait this path serves: ' + str(g))
+            continue
+        nk += 1
+        ab = [c for c in uaw.calls() if q.callee_name(c) == UDP + '::abort_%s_handlers' % kind]
+        run.check(q.any_precedes(uaw, ab, fl.site), 'R6-SUPERSEDE', 'udp-wait-aborts-first', UDP + '::async_wait(%s): handler -> %s' % ('wait_write' if kind == 'send' else 'wait_read', fl.dest.split(':')[0]), uaw.loc(fl.node),
+                  'a new %s-wait reaches its completion (%s) on a path that has not aborted the outstanding one with abort_%s_handlers(): the superseded wait stays on the timer and later completes with success, after its replacement' % (kind, fl.dest.split(':')[0], kind),
+                  'abort_%s_handlers() dominates' % kind)
+    if nk < 2:
+        run.broke('udp::socket::async_wait: fewer than two handler flows recognised')
+    run.clause('R1 no closure, handler or packet field is filled by std::move of an object that a later iteration of the same loop moves again (moved-from reuse: only the first segment would carry its drop callback / only the first completion its handler)')
+    nmv = engines.moved_in_loop(run, [f_ for f_ in fx.repo_functions() if f_.file.startswith(simlib.REPO_PREFIX + 'src/')])
+    run.ok('R1', 'moved-from-in-loop', 'scan', '', 'std::move sites inside loops examined: %d' % nmv, nontrivial=False)
     run.floor('R6-ABORT', 21)
 
     # timer: cancel / re-arm / destroy
